@@ -1300,3 +1300,133 @@ Section ValidateP.
     - rewrite V. reflexivity.
   Qed.
 End ValidateP.
+
+(* ---- patterns that the first pass leaves alone ---------------------------------------------------- *)
+(* every '^' / '$' of p stands inside brackets or directly after an unescaped backslash; brack and escaped are the
+   state of the loop of lys_compile_type_pattern_check() (esc_end) *)
+Fixpoint anchors_protected (brack : N) (escaped : bool) (p : bytes) : bool :=
+  match p with
+  | [] => true
+  | c :: p' =>
+      if c =? 92 then anchors_protected brack (negb escaped) p'
+      else if is_anchor c then negb ((brack =? 0) && negb escaped) && anchors_protected brack false p'
+      else if c =? 91 then anchors_protected (if escaped then brack else brack + 1) false p'
+      else if c =? 93 then anchors_protected (if escaped then brack else brack - 1) false p'
+      else anchors_protected brack false p'
+  end.
+
+Lemma esc_pass_protected p : forall brack escaped,
+  anchors_protected brack escaped p = true ->
+  esc_pass brack escaped p = Ok p \/ esc_pass brack escaped p = Err 1.
+Proof.
+  induction p as [|c p IH]; intros brack escaped H; [left; reflexivity|].
+  cbn [anchors_protected] in H. cbn [esc_pass].
+  destruct (c =? 92) eqn:H92.
+  { apply N.eqb_eq in H92. subst c. destruct (IH _ _ H) as [-> | ->]; [left|right]; reflexivity. }
+  destruct (is_anchor c) eqn:Hanc.
+  { apply andb_true_iff in H. destruct H as [Hp H]. apply negb_true_iff in Hp.
+    destruct (IH _ _ H) as [-> | ->]; [left|right]; cbn [bind]; [rewrite Hp|]; reflexivity. }
+  destruct (c =? 91) eqn:H91.
+  { destruct (IH _ _ H) as [-> | ->]; [left|right]; reflexivity. }
+  destruct (c =? 93) eqn:H93.
+  { destruct ((brack =? 0) && negb escaped); [right; reflexivity|].
+    destruct (IH _ _ H) as [-> | ->]; [left|right]; reflexivity. }
+  destruct (IH _ _ H) as [-> | ->]; [left|right]; reflexivity.
+Qed.
+
+(* conversely: when the first pass returns the pattern itself, every anchor was protected *)
+Lemma esc_pass_fix_protected p : forall brack escaped,
+  esc_pass brack escaped p = Ok p -> anchors_protected brack escaped p = true.
+Proof.
+  induction p as [|c p IH]; intros brack escaped H; [reflexivity|].
+  cbn [esc_pass] in H. cbn [anchors_protected].
+  destruct (c =? 92) eqn:H92.
+  { apply bind_ok in H. destruct H as (u & Hu & Hq). inversion Hq; subst u. exact (IH _ _ Hu). }
+  destruct (is_anchor c) eqn:Hanc.
+  { apply bind_ok in H. destruct H as (u & Hu & Hq).
+    destruct ((brack =? 0) && negb escaped) eqn:Hins.
+    - inversion Hq. subst c. discriminate.
+    - inversion Hq; subst u. cbn [negb andb]. exact (IH _ _ Hu). }
+  destruct (c =? 91) eqn:H91.
+  { apply bind_ok in H. destruct H as (u & Hu & Hq). inversion Hq; subst u. exact (IH _ _ Hu). }
+  destruct (c =? 93) eqn:H93.
+  { destruct ((brack =? 0) && negb escaped); [discriminate|].
+    apply bind_ok in H. destruct H as (u & Hu & Hq). inversion Hq; subst u. exact (IH _ _ Hu). }
+  apply bind_ok in H. destruct H as (u & Hu & Hq). inversion Hq; subst u. exact (IH _ _ Hu).
+Qed.
+
+Lemma noanchor_protected p : forall brack escaped,
+  (forall c, In c p -> is_anchor c = false) -> anchors_protected brack escaped p = true.
+Proof.
+  induction p as [|c p IH]; intros brack escaped H; [reflexivity|].
+  cbn [anchors_protected]. rewrite (H c) by (left; reflexivity).
+  assert (H' : forall c', In c' p -> is_anchor c' = false) by (intros c' Hc; apply H; right; exact Hc).
+  destruct (c =? 92); [apply IH; exact H'|]. destruct (c =? 91); [apply IH; exact H'|].
+  destruct (c =? 93); apply IH; exact H'.
+Qed.
+
+(* a pattern without \p{Is reaches pcre2_compile() unchanged (or is rejected for a stray ']') IF every '^' / '$' in it
+   stands inside brackets or is escaped, and ONLY IF: when the text handed over is the pattern itself, that is so *)
+Theorem rewrite_identity_iff p :
+  find_sub needle p = None ->
+  (anchors_protected 0 false p = true -> rewrite p = Ok p \/ rewrite p = Err 1) /\
+  (rewrite p = Ok p -> anchors_protected 0 false p = true).
+Proof.
+  intro Hn. split.
+  - intro Hp. unfold rewrite. destruct (esc_pass_protected p 0 false Hp) as [-> | ->]; [left|right; reflexivity].
+    cbn [bind]. apply chblocks_noblock. exact Hn.
+  - unfold rewrite. intro H. destruct (esc_pass 0 false p) as [q|e] eqn:E; [|discriminate].
+    cbn [bind] in H.
+    assert (Hq : find_sub needle q = None).
+    { apply find_sub_none. rewrite (ins_has_sub _ _ (esc_pass_ins _ _ _ _ E)). apply find_sub_none. exact Hn. }
+    rewrite (chblocks_noblock (length q) q Hq) in H. inversion H; subst q.
+    exact (esc_pass_fix_protected p 0 false E).
+Qed.
+
+(* ---- regression variants: the code as it was under two seeded changes ------------------------------ *)
+(* seed C18-1: whether '^' / '$' outside brackets still needs a backslash is decided from the previously WRITTEN byte
+   (is it a backslash) instead of from the escaped state *)
+Fixpoint esc_pass_prevout (brack : N) (escaped : bool) (prev : N) (p : bytes) : res bytes :=
+  match p with
+  | [] => Ok []
+  | c :: p' =>
+      if c =? 92 then bind (esc_pass_prevout brack (negb escaped) 92 p') (fun o => Ok (92 :: o))
+      else if is_anchor c then
+        bind (esc_pass_prevout brack false c p')
+             (fun o => Ok (if (brack =? 0) && negb (prev =? 92) then 92 :: c :: o else c :: o))
+      else if c =? 91 then
+        bind (esc_pass_prevout (if escaped then brack else brack + 1) false c p') (fun o => Ok (c :: o))
+      else if c =? 93 then
+        if (brack =? 0) && negb escaped then Err 1
+        else bind (esc_pass_prevout (if escaped then brack else brack - 1) false c p') (fun o => Ok (c :: o))
+      else bind (esc_pass_prevout brack false c p') (fun o => Ok (c :: o))
+  end.
+
+(* seed C18-4: the bracket counter of the block rewrite is initialised once, not before every rescan: the count of
+   one iteration is the start value of the next *)
+Definition chblocks_step_carry (acc : Z) (s : bytes) : option (res (bytes * Z)) :=
+  match find_sub needle s with
+  | None => None
+  | Some (before, at_) =>
+      match after_char 125 at_ with
+      | None => Some (Err 2)
+      | Some rest =>
+          match block_find (skipn 5 at_) with
+          | None => Some (Err 3)
+          | Some e =>
+              let cnt := brk_count 0 before acc in
+              if (cnt =? 0)%Z then Some (Ok (before ++ firstn URANGE_LEN (snd e) ++ rest, cnt))
+              else Some (Ok (before ++ firstn (URANGE_LEN - 2) (skipn 1 (snd e)) ++ rest, cnt))
+          end
+      end
+  end.
+
+Fixpoint chblocks_carry (fuel : nat) (acc : Z) (s : bytes) : res bytes :=
+  match fuel with
+  | O => Err 9
+  | S f => match chblocks_step_carry acc s with
+           | None => Ok s
+           | Some (Err e) => Err e
+           | Some (Ok (s', acc')) => chblocks_carry f acc' s'
+           end
+  end.
